@@ -152,6 +152,18 @@ func compareDiags(kind string, da, db []string, textA, textB string, offA, offB 
 }
 
 func checkC08(c c08Case) (ci caseInfo, err error) {
+	if c.Kind != "valid" {
+		// In a sequence that is no longer a valid message a message name can end up in the message text, where a
+		// quote or an opening bracket in it starts a string / size that swallows the FOLLOWING separators: the
+		// blanks are then part of a token and no longer "whitespace between tokens". Not a layout change: excluded.
+		for _, tk := range c.Toks {
+			if tk.Kind == "name" && strings.ContainsAny(tk.Text, "\"[") {
+				ci.label("excluded:name-opens-string-or-size-in-invalid-sequence")
+				stats.exclude("name-opens-string-or-size-in-invalid-sequence")
+				return ci, nil
+			}
+		}
+	}
 	textA, offA := render(c.Toks, c.A)
 	toksB := c.Toks
 	if c.Flip {
